@@ -3,6 +3,7 @@ package main
 import (
 	"fmt"
 	"go/token"
+	"go/types"
 	"strings"
 
 	"golang.org/x/tools/go/ssa"
@@ -14,6 +15,10 @@ type acsSite struct {
 	val  ssa.Value
 	pred *ssa.BasicBlock
 	via  *ssa.Call // the call of a helper that hands both results up (`return lowestIndexEndpoint(list)`), nil in the function itself
+	// for a result read through the element pointer a helper returned (`e := firstWithBinding(list, b); e.Location`):
+	// the element's slot inside the helper and the field read
+	slot  *ssa.IndexAddr
+	field string
 }
 
 // phiSites: the non-phi values (with the block they arrive from) that can reach v through phis. A value that is
@@ -49,7 +54,30 @@ func phiSitesVia(v ssa.Value, from *ssa.BasicBlock, seen map[ssa.Value]bool, out
 			}
 		}
 	}
-	*out = append(*out, acsSite{v, from, via})
+	// a field read through the pointer a helper of the package returned: the helper's returns are the sites
+	if ld, ok := v.(*ssa.UnOp); ok && ld.Op == token.MUL && depth < 2 && via == nil {
+		if fa, isFA := ld.X.(*ssa.FieldAddr); isFA {
+			if c, isC := fa.X.(*ssa.Call); isC && !c.Call.IsInvoke() {
+				if h := calleeOf(c); h != nil && h.Blocks != nil && h.Parent() == nil && c.Parent() != nil && h.Pkg == c.Parent().Pkg && h != c.Parent() {
+					if _, isPtr := h.Signature.Results().At(0).Type().Underlying().(*types.Pointer); isPtr && h.Signature.Results().Len() == 1 {
+						var inner []acsSite
+						for _, ret := range returnsOf(h) {
+							phiSitesVia(ret.Results[0], ret.Block(), seen, &inner, nil, depth+1)
+						}
+						for _, is := range inner {
+							if isNilConst(is.val) {
+								continue // the caller reads the fields only where the pointer was found non-nil (R-NIL's matter)
+							}
+							ia, _ := is.val.(*ssa.IndexAddr)
+							*out = append(*out, acsSite{val: v, pred: is.pred, via: c, slot: ia, field: fname(fieldVar(fa.X.Type(), fa.Field))})
+						}
+						return
+					}
+				}
+			}
+		}
+	}
+	*out = append(*out, acsSite{val: v, pred: from, via: via})
 }
 
 // elemBaseOf: if v is a load of field `field` of a range element (a local copy or the slot itself), the
@@ -136,8 +164,10 @@ func checkC16(cx *Ctx, r *Report) {
 		phiSites(ret.Results[1], ret.Block(), seen1, &s1)
 	}
 	by1 := map[*ssa.BasicBlock]ssa.Value{}
+	by1s := map[*ssa.BasicBlock]acsSite{}
 	for _, s := range s1 {
 		by1[s.pred] = s.val
+		by1s[s.pred] = s
 	}
 	// and the other way round: the binding result is assigned nowhere else (a later "fallback" that replaces the binding
 	// alone pairs the URL of one entry with the binding of another - a pair that is not registered)
@@ -183,6 +213,47 @@ func checkC16(cx *Ctx, r *Report) {
 		}
 		slot0, f0 := cx.elemFieldOf(s.val)
 		slot1, f1 := cx.elemFieldOf(other)
+		if s.slot != nil {
+			slot0, f0 = s.slot, s.field
+		}
+		if o := by1s[s.pred]; o.slot != nil {
+			slot1, f1 = o.slot, o.field
+		}
+		// the minimum of the list under a comparison of the numeric indexes (slices.MinFunc hands back the first of
+		// several minimal elements): the lowest-index stage without a loop
+		if slot0 == nil && slot1 == nil {
+			if mc, fl := minFuncField(fx, s.val); mc != nil {
+				if mc1, fl1 := minFuncField(fx, other); mc1 == mc && fl == "Location" && fl1 == "Binding" {
+					okL := true
+					for l := range lvf.objLabels(mc.Call.Args[0], 0) {
+						if l != "param:"+w.FuncKey(fn)+"/#0" {
+							okL = false
+						}
+					}
+					bad := ""
+					if !okL {
+						bad = "the minimum is not taken over the list of registered endpoints passed in"
+					} else if why := indexComparator(fx, mc.Call.Args[1]); why != "" {
+						bad = "the comparison handed to slices.MinFunc " + why
+					} else {
+						pts, _ := fx.atomPathsTo(s.pred, 8192)
+						for _, p := range pts {
+							for _, t := range s0 {
+								if t.pred != s.pred && !isConstStr(t.val) && p.Has(t.pred) {
+									bad = "the lowest-index stage can run after an entry was chosen"
+								}
+							}
+						}
+					}
+					r.Check(bad == "", "R-SELECT", key+":guard(stage 3)", w.InstrPos(mc), "slices.MinFunc over the list with the numeric index as order: the first entry with the lowest index", bad)
+					if bad == "" {
+						nElem++
+						infos = append(infos, siteInfo{s, 3})
+					}
+					continue
+				}
+			}
+		}
 		if slot0 == nil || slot1 == nil || !sameSlot(slot0, slot1) || f0 != "Location" || f1 != "Binding" {
 			r.Fail("R-SELECT", key+":pairing", w.InstrPos(s.pred.Instrs[0]), fmt.Sprintf("the two results are not Location and Binding of the same list element (got %s / %s)", fx.path(s.val), fx.path(other)))
 			continue
@@ -231,6 +302,23 @@ func checkC16(cx *Ctx, r *Report) {
 		staleBest := ""
 		for _, p := range pts {
 			g1, g2, lt, firstCand, nothingYet, sentinel := false, false, false, false, false, ""
+			// the element at the index slices.IndexFunc found: the first one its predicate holds for
+			if ic, isIC := slot0.Index.(*ssa.Call); isIC && strings.HasPrefix(calleeName(ic), "slices.IndexFunc") && len(ic.Call.Args) == 2 {
+				found := false
+				for _, a := range p.Atoms {
+					if bo, isB := stripNot(a.Cond).(*ssa.BinOp); isB && (bo.X == ssa.Value(ic) || bo.Y == ssa.Value(ic)) && a.Op == "LT" && a.Neg && (a.B == "const:0" || a.A == "const:0") {
+						found = true // index >= 0
+					}
+				}
+				if found {
+					switch cx.indexPredicateKind(ic, fn, helpers) {
+					case 1:
+						g1 = true
+					case 2:
+						g2 = true
+					}
+				}
+			}
 			for _, a := range p.Atoms {
 				switch {
 				case a.Op == "EQ" && !a.Neg && (strings.HasSuffix(a.A, ".Binding") && a.TB == "<#1 string>" || strings.HasSuffix(a.B, ".Binding") && a.TA == "<#1 string>"):
@@ -279,6 +367,11 @@ func checkC16(cx *Ctx, r *Report) {
 								}
 							}
 						}
+					}
+				case a.Op == "NIL" && !a.Neg && strings.HasPrefix(a.A, "phi@"):
+					// "no candidate yet" for a candidate kept as element pointer: the pointer that becomes the result is still nil
+					if c, ok := stripNot(a.Cond).(*ssa.BinOp); ok && (res0phis[c.X] || res0phis[c.Y]) {
+						firstCand = true
 					}
 				case a.Op == "EMPTY" && !a.Neg && strings.HasPrefix(a.A, "phi@"):
 					if c, ok := stripNot(a.Cond).(*ssa.BinOp); ok {
@@ -723,4 +816,174 @@ func (cx *Ctx) checkSelectionPairs(r *Report) {
 		bad = "the binding result is assigned (" + fx.path(s.val) + ") where the URL result is not, at " + w.InstrPos(s.pred.Instrs[0])
 	}
 	r.Check(bad == "", "R-SELECT", "selection:pairs", w.FnPos(fn), "the two results are always assigned together", bad+": URL and binding of a reply can come from different entries - a pair that is not registered")
+}
+
+func isConstStr(v ssa.Value) bool {
+	_, ok := constString(v)
+	return ok
+}
+
+// minFuncField: v is field f of the value slices.MinFunc(list, cmp) returned (kept in a local or not).
+func minFuncField(fx *Facts, v ssa.Value) (*ssa.Call, string) {
+	var base ssa.Value
+	field := ""
+	switch x := v.(type) {
+	case *ssa.UnOp:
+		fa, ok := x.X.(*ssa.FieldAddr)
+		if x.Op != token.MUL || !ok {
+			return nil, ""
+		}
+		field = fname(fieldVar(fa.X.Type(), fa.Field))
+		base = fa.X
+	case *ssa.Field:
+		st, ok := x.X.Type().Underlying().(*types.Struct)
+		if !ok {
+			return nil, ""
+		}
+		field = fname(st.Field(x.Field))
+		base = x.X
+	default:
+		return nil, ""
+	}
+	for i := 0; i < 4; i++ {
+		switch b := base.(type) {
+		case *ssa.Call:
+			if strings.HasPrefix(calleeName(b), "slices.MinFunc") && len(b.Call.Args) == 2 {
+				return b, field
+			}
+			return nil, ""
+		case *ssa.Alloc:
+			st := fx.storesToCell(b)
+			if len(st) != 1 {
+				return nil, ""
+			}
+			base = st[0]
+		case *ssa.UnOp:
+			base = b.X
+		default:
+			return nil, ""
+		}
+	}
+	return nil, ""
+}
+
+// indexComparator: "" when cmp is func(a, b T) int { return cmp.Compare(Atoi(a.Index), Atoi(b.Index)) } (conversion
+// errors ignored, as the selection always did); otherwise what is wrong with it.
+func indexComparator(fx *Facts, cmpv ssa.Value) string {
+	tg, ok := fx.funcTargets(cmpv)
+	if f, isF := cmpv.(*ssa.Function); isF {
+		tg, ok = []*ssa.Function{f}, true
+	}
+	if !ok || len(tg) != 1 || tg[0].Blocks == nil || len(tg[0].Params) != 2 {
+		return "is not a known function of two elements"
+	}
+	f := tg[0]
+	rets := returnsOf(f)
+	if len(rets) != 1 || len(rets[0].Results) != 1 {
+		return "has several returns"
+	}
+	cc, isC := rets[0].Results[0].(*ssa.Call)
+	if !isC || !strings.HasPrefix(calleeName(cc), "cmp.Compare") || len(cc.Call.Args) != 2 {
+		return "does not return cmp.Compare of the two indexes"
+	}
+	for i, a := range cc.Call.Args {
+		ex, isE := a.(*ssa.Extract)
+		if !isE || ex.Index != 0 {
+			return "does not compare the numeric indexes"
+		}
+		ac, isAC := ex.Tuple.(*ssa.Call)
+		if !isAC || calleeName(ac) != "strconv.Atoi" {
+			return "does not compare the numeric indexes"
+		}
+		// Atoi(<param i>.Index)
+		okArg := false
+		switch y := ac.Call.Args[0].(type) {
+		case *ssa.Field:
+			if st, isS := y.X.Type().Underlying().(*types.Struct); isS && fname(st.Field(y.Field)) == "Index" && y.X == ssa.Value(f.Params[i]) {
+				okArg = true
+			}
+		case *ssa.UnOp:
+			if fa, isFA := y.X.(*ssa.FieldAddr); isFA && fname(fieldVar(fa.X.Type(), fa.Field)) == "Index" {
+				if cell, isAl := fa.X.(*ssa.Alloc); isAl {
+					if st := fx.storesToCell(cell); len(st) == 1 && st[0] == ssa.Value(f.Params[i]) {
+						okArg = true
+					}
+				}
+			}
+		}
+		if !okArg {
+			return "does not compare the index of its first argument with the index of its second, in this order"
+		}
+	}
+	return ""
+}
+
+// indexPredicateKind: the predicate of slices.IndexFunc(list, pred): 1 when it holds exactly for an element whose
+// Binding equals the requested binding (parameter #1 of the selection), 2 when exactly for an element whose IsDefault is
+// xs:boolean true (through the checked helper), 0 otherwise.
+func (cx *Ctx) indexPredicateKind(ic *ssa.Call, sel *ssa.Function, helpers map[*ssa.Function]bool) int {
+	fx := cx.Fx
+	pv := ic.Call.Args[1]
+	var pf *ssa.Function
+	switch x := pv.(type) {
+	case *ssa.Function:
+		pf = x
+	case *ssa.MakeClosure:
+		pf, _ = x.Fn.(*ssa.Function)
+	}
+	if pf == nil || pf.Blocks == nil || len(pf.Params) != 1 {
+		return 0
+	}
+	rets := returnsOf(pf)
+	if len(rets) != 1 || len(rets[0].Results) != 1 {
+		return 0
+	}
+	elemField := func(v ssa.Value) string {
+		switch y := v.(type) {
+		case *ssa.Field:
+			if st, isS := y.X.Type().Underlying().(*types.Struct); isS && y.X == ssa.Value(pf.Params[0]) {
+				return fname(st.Field(y.Field))
+			}
+		case *ssa.UnOp:
+			if fa, isFA := y.X.(*ssa.FieldAddr); isFA {
+				if cell, isAl := fa.X.(*ssa.Alloc); isAl {
+					if st := fx.storesToCell(cell); len(st) == 1 && st[0] == ssa.Value(pf.Params[0]) {
+						return fname(fieldVar(fa.X.Type(), fa.Field))
+					}
+				}
+			}
+		}
+		return ""
+	}
+	switch rv := rets[0].Results[0].(type) {
+	case *ssa.BinOp:
+		if rv.Op != token.EQL {
+			return 0
+		}
+		for _, pair := range [][2]ssa.Value{{rv.X, rv.Y}, {rv.Y, rv.X}} {
+			if elemField(pair[0]) != "Binding" {
+				continue
+			}
+			// the other side: the selection's second parameter (captured)
+			if ld, isLd := pair[1].(*ssa.UnOp); isLd && ld.Op == token.MUL {
+				if fv, isFV := ld.X.(*ssa.FreeVar); isFV {
+					switch b := fx.bindings[fv].(type) {
+					case *ssa.Parameter:
+						if len(sel.Params) > 1 && b == sel.Params[1] {
+							return 1
+						}
+					case *ssa.Alloc:
+						if st := fx.storesToCell(b); len(st) == 1 && len(sel.Params) > 1 && st[0] == ssa.Value(sel.Params[1]) {
+							return 1
+						}
+					}
+				}
+			}
+		}
+	case *ssa.Call:
+		if h := calleeOf(rv); h != nil && helpers[h] && len(rv.Call.Args) == 1 && elemField(rv.Call.Args[0]) == "IsDefault" {
+			return 2
+		}
+	}
+	return 0
 }
